@@ -338,6 +338,11 @@ fn syn_campaign(report: &mut Report, n: usize) {
         let mut t = Tape::new(tp);
         let Some(b) = build_base(&mut t, &cfg, &mut stats) else { continue };
         let op = b.world.doc.operations().next().unwrap().clone();
+        for f in ["recursive_fragment", "mutually_recursive_fragments", "same_type_spread"] {
+            if b.features.has(f) {
+                report.feature(&format!("structural:{}", f));
+            }
+        }
         let sp = scratch.file(&b.case.schema_text, &b.case.schema_ext);
         let mut opts = b.case.opts.clone();
         opts.derive_mode = true;
